@@ -17,7 +17,7 @@ use laythe_core::{
   value::{Value, VALUE_NIL},
   list, Call, IndexedResult, LyError, LyResult, ObjRef, Ref, VecBuilder,
 };
-use std::{cmp::Ordering, io::Write};
+use std::{cmp::Ordering, io::Write, mem};
 
 use super::{
   class_inheritance,
@@ -608,8 +608,12 @@ impl LyNative for ListSort {
     let mut list = hooks.manage_obj(list!(&*list));
     hooks.push_root(list);
 
+    // the elements move back and forth between the copy and this buffer
+    let mut buffer = hooks.manage_obj(list!(&*list));
+    hooks.push_root(buffer);
+
     let mut failure: Option<Call> = None;
-    list.sort_by(|a, b| {
+    stable_sort_by(&mut list, &mut buffer, |a, b| {
       if failure.is_some() {
         return Ordering::Equal;
       }
@@ -639,12 +643,61 @@ impl LyNative for ListSort {
       }
     });
 
-    hooks.pop_roots(1);
+    hooks.pop_roots(2);
 
     match failure {
       Some(failure) => failure,
       None => Call::Ok(val!(list)),
     }
+  }
+}
+
+/// A stable merge sort of `items` with the help of `buffer`, a slice of the same length.
+/// slice::sort_by panics when it notices that the comparator is not a total order, here
+/// any comparator gives some permutation. Each pass merges the runs of one slice into the
+/// other and leaves the first intact, every element stays reachable from one of the two
+/// slices while the comparator runs
+fn stable_sort_by(
+  items: &mut [Value],
+  buffer: &mut [Value],
+  mut compare: impl FnMut(&Value, &Value) -> Ordering,
+) {
+  let len = items.len();
+  let (mut source, mut target) = (&mut *items, &mut *buffer);
+  let mut sorted_in_buffer = false;
+  let mut width = 1;
+
+  while width < len {
+    let mut start = 0;
+
+    while start < len {
+      let mid = usize::min(start + width, len);
+      let end = usize::min(mid + width, len);
+      let (mut left, mut right) = (start, mid);
+
+      for slot in start..end {
+        // only a strictly smaller element of the right run goes first, equal elements keep their order
+        if left < mid
+          && (right >= end || compare(&source[right], &source[left]) != Ordering::Less)
+        {
+          target[slot] = source[left];
+          left += 1;
+        } else {
+          target[slot] = source[right];
+          right += 1;
+        }
+      }
+
+      start = end;
+    }
+
+    mem::swap(&mut source, &mut target);
+    sorted_in_buffer = !sorted_in_buffer;
+    width *= 2;
+  }
+
+  if sorted_in_buffer {
+    items.copy_from_slice(buffer);
   }
 }
 
